@@ -100,6 +100,7 @@ def main(tier, seed, replay=None):
         w = [round_to(v, sc) for v in w]
         cw = copy.deepcopy(c)
         cw["build"].append(["weights", [hx(v, sc) for v in w]])
+        rng.shuffle(cw["build"])        # weights before or after the observations: the same weighted problem
         cw["meta"]["weights"] = kind
         ops = states.observe_at(rng, c, nsets=1)
         if i % 2 == 0:
@@ -164,6 +165,7 @@ def main(tier, seed, replay=None):
             w = [2.0 ** rng.randint(-3, 3) for _ in range(N)]
         cw = copy.deepcopy(c)
         cw["build"].append(["weights", [hx(v, "f64") for v in w]])
+        rng.shuffle(cw["build"])
         tw = scaled_twin(cw, w)
         spairs.append((cw, tw, kind))
     scases = []
